@@ -164,7 +164,7 @@ static int cmd_batch(int argc, char **argv) {
   long plan = p->plan(tier);
   if (limit >= 0 && limit < plan) plan = limit;
   double t0 = now_s();
-  long viols = 0, done = 0, last = -1;
+  long viols = 0, done = 0, last = -1, sig_emitted = 0;
   bool wall_stop = false;
   for (long idx = w; idx < plan; idx += N) {
     if (idx <= start) continue;
@@ -183,6 +183,12 @@ static int cmd_batch(int argc, char **argv) {
     if (v.nontrivial) g_stats.distinct_cases.insert(v.case_hash);
     if (g_stats.samples.size() < 3 && (v.nontrivial || done > 20)) g_stats.samples.push_back(scn_summary(s));
     if (v.violation) {
+      if (!v.sig.empty()) {
+        // carries the signature of a possible known finding: the driver decides; keep exploring
+        g_stats.add("violations_with_signature", 1);
+        if (sig_emitted++ < 12) emit_violation(s, v.cls, v.sig, v.detail, nullptr, 0);
+        continue;
+      }
       emit_violation(s, v.cls, v.sig, v.detail, nullptr, 0);
       g_stats.add("violations", 1);
       if (++viols >= maxviol) break;
